@@ -15,7 +15,7 @@ oracle : on the implementation alone: ACL verdict = python longest-prefix refere
 import os
 import vcommon as V
 import eval_util as EU
-from gen import aclgen, evalgen, proggen, seriesgen, rebindgen, regroupgen
+from gen import aclgen, evalgen, proggen, seriesgen, rebindgen, regroupgen, rwgen
 
 
 def _acl_requests(rng, n_acl, stats):
@@ -432,6 +432,34 @@ def run_regroup(ctx, model, impl, thorough):
     return len(cases), len(set(ireq))
 
 
+def run_readwrite(ctx, impl):
+    """read-your-write for every writable predefined variable of predefined.yml (one scalar type for get and set) in every
+    scope where it is allowed: read, assign a, read, assign b, read - the two reads after the assignments must differ
+    (an assignment the getter never shows is a violation); how many read back exactly the assigned value is recorded"""
+    cs = rwgen.cases(V.REPO)
+    rep = EU.run_sharded(impl + ["rwvar"], [c[3] for c in cs], hang_s=5, max_failures=10)
+    exact = {"INTEGER": ("I:5:000", "I:7:000"), "BOOL": ("B:1", "B:0"), "RTIME": ("R:5000000000", "R:7000000000"),
+             "STRING": ("S:616263:0", "S:78797a:0"), "FLOAT": ("F:3ff8000000000000:000", "F:4004000000000000:000")}
+    out = {"visible": 0, "exact": 0, "assignment refused": 0}
+    for (sc, name, ty, req), r in zip(cs, rep):
+        kv = dict(w.split("=", 1) for w in (r or "").split() if "=" in w)
+        if not kv:
+            ctx.violation("reading / assigning %s in %s: %s" % (name, sc, (r or "no reply")[:120]), {"request": req, "impl": r})
+            continue
+        if kv.get("w1") != "ok" or kv.get("w2") != "ok":
+            out["assignment refused"] += 1
+            continue
+        if kv.get("r1") == kv.get("r2"):
+            ctx.violation("set %s = ...; in vcl_%s is not visible to a later read: it reads %s after two different assignments (before: %s)" % (
+                name, sc.lower(), kv.get("r1"), kv.get("r0")), {"request": req, "variable": name, "scope": sc, "impl": r})
+            continue
+        out["visible"] += 1
+        if ty in exact and (kv.get("r1"), kv.get("r2")) == exact[ty]:
+            out["exact"] += 1
+    ctx.coverage["read_your_write"] = {"variable_scope_pairs": len(cs), "variables": len(set(c[1] for c in cs)), "outcomes": out}
+    return len(cs), len(cs)
+
+
 # minimised inputs of the concatenation defects repaired in interpreter/expression.go (run first):
 # (items, variables, expression text)
 _T0 = ("T", 1758800000, 0, 0)
@@ -501,7 +529,8 @@ def run(ctx):
     n4, d4 = run_series(ctx, model, impl, thorough)
     n5, d5 = run_rebinding(ctx, model, impl, thorough)
     n6, d6 = run_regroup(ctx, model, impl, thorough)
-    n3, d3 = n3 + n4 + n5 + n6, d3 + d4 + d5 + d6
+    n7, d7 = run_readwrite(ctx, impl)
+    n3, d3 = n3 + n4 + n5 + n6 + n7, d3 + d4 + d5 + d6 + d7
     if not proved and not ctx.violations:
         V.log("C07: proof obligation broken (%s) and no failing input yet: escalating the search to the thorough volumes" % ctx.broken)
         for part in (lambda: run_acl(ctx, model, impl, True), lambda: run_series(ctx, model, impl, True), lambda: run_rebinding(ctx, model, impl, True),
